@@ -105,6 +105,13 @@ func vfRunParse(c vfParseCase) *kit.Result {
 		return r
 	}
 	out := cptvframe.NewFrame(vfCam{c.W, c.H, 9})
+	// the processor hands the parser a re-used slot of the ring buffer: it holds an older frame
+	for y := range out.Pix {
+		for x := range out.Pix[y] {
+			out.Pix[y][x] = 0xA5A5
+		}
+	}
+	out.Status.TimeOn, out.Status.FrameCount = 12345, 999
 	err := parse(raw, out, c.Edge)
 	// independent predicate
 	wantBad := false
@@ -347,58 +354,48 @@ func vfRunSock(c vfSockCase) *vfSockOut {
 			}
 		}
 	} else {
-		// arbitrary segmentation; a segment never contains two frame ends, and after each frame end the
-		// sender waits for a new millisecond (recording names are time.Now() to the millisecond)
-		ci := 0
-		var pending []byte
-		flush := func(b []byte) error {
-			for len(b) > 0 {
-				n := c.Chunks[ci%len(c.Chunks)]
-				ci++
-				if n < 1 {
-					n = 1
-				}
-				if n > len(b) {
-					n = len(b)
-				}
-				if err := conn.Write(b[:n]); err != nil {
-					return err
-				}
-				b = b[n:]
-			}
-			return nil
-		}
+		// arbitrary segmentation of the whole byte stream: a write may end anywhere (inside the header, inside a
+		// marker, inside the first bytes of a frame) and may carry the end of one frame together with the beginning
+		// of the next item, but never two frame ends; after a write that completes a frame the sender waits for a
+		// new millisecond (recording names are time.Now() to the millisecond)
+		var stream []byte
+		var ends []int // offsets just past each frame end
 		for _, s := range segs {
-			pending = append(pending, s.b...)
+			stream = append(stream, s.b...)
 			if s.frameEnd {
-				// keep the last byte back so that chunks may straddle into the next item
-				keep := 1 + (ci % 4)
-				if keep > len(pending) {
-					keep = len(pending)
-				}
-				if err := flush(pending[:len(pending)-keep]); err != nil {
-					o.connErr = conn.Close()
-					o.err = fmt.Sprintf("stream could not be delivered: %v; handleConn: %v", err, o.connErr)
-					return o
-				}
-				tail := pending[len(pending)-keep:]
-				// the frame end is inside 'tail': deliver it alone, then pause
-				if err := conn.Write(tail); err != nil {
-					o.connErr = conn.Close()
-					o.err = fmt.Sprintf("stream could not be delivered: %v; handleConn: %v", err, o.connErr)
-					return o
-				}
-				pending = pending[:0]
+				ends = append(ends, len(stream))
+			}
+		}
+		pos, ci, ei := 0, 0, 0
+		for pos < len(stream) {
+			n := c.Chunks[ci%len(c.Chunks)]
+			ci++
+			if n < 1 {
+				n = 1
+			}
+			end := pos + n
+			if end > len(stream) {
+				end = len(stream)
+			}
+			for ei < len(ends) && ends[ei] <= pos {
+				ei++
+			}
+			if ei+1 < len(ends) && end >= ends[ei+1] {
+				end = ends[ei+1] - 1 // stop short of a second frame end
+			}
+			if err := conn.Write(stream[pos:end]); err != nil {
+				o.connErr = conn.Close()
+				o.err = fmt.Sprintf("stream could not be delivered: %v; handleConn: %v", err, o.connErr)
+				o.logs = lb.String()
+				return o
+			}
+			if ei < len(ends) && end >= ends[ei] {
 				t0 := time.Now().UnixNano() / 1e6
 				for time.Now().UnixNano()/1e6 <= t0+1 {
 					time.Sleep(200 * time.Microsecond)
 				}
 			}
-		}
-		if err := flush(pending); err != nil {
-			o.connErr = conn.Close()
-			o.err = fmt.Sprintf("stream could not be delivered: %v; handleConn: %v", err, o.connErr)
-			return o
+			pos = end
 		}
 	}
 	o.connErr = conn.Close()
